@@ -122,3 +122,15 @@ MUTANTS += [
     ("c07_stray_velocity", "C07", "solver.py", "        Ti = -(Kx[i] * Lx**2 + Ky[i] * Ly**2) - 1j * u[i] * Lx - 1j * v[i] * Ly\n", "        Ti = -(Kx[i] * Lx**2 + Ky[i] * Ly**2) - 1j * (u[i] + 1e-3) * Lx - 1j * v[i] * Ly\n"),
     ("c07_stray_diffusivity", "C07", "solver.py", "        Kzinv = 1.0 / Kz[i]\n        dzi = dz[i]\n", "        Kzinv = 1.0 / (Kz[i] + 1e-4)\n        dzi = dz[i]\n"),
 ]
+
+MUTANTS += [
+    # ---- C10
+    ("c10_rank_regression", "C10", "solver.py", "        tfftp = tfftp[rank]\n        tfftq = tfftq[rank]\n", "        pass\n"),
+    ("c10_analytic_broadcast_regression", "C10", "solver.py", "np.exp(-eigval * h[:, np.newaxis])", "np.exp(-eigval * h)"),
+    ("c10_Z_sorted", "C10", "solver.py", '    Z, Y, X = np.meshgrid(z[levels], y, x, indexing="ij")\n', '    Z, Y, X = np.meshgrid(np.sort(z[levels]), y, x, indexing="ij")\n'),
+    ("c10_top_test_nz2", "C10", "solver.py", "    if nz - 1 in levels:\n        fftp[lvl, ...] = fftpi\n        fftq[lvl, ...] = fftqi\n", "    if nz - 2 in levels and nz - 1 in levels:\n        fftp[lvl, ...] = fftpi\n        fftq[lvl, ...] = fftqi\n"),
+    ("c10_mean_mode_offset", "C10", "solver.py", "            if i in levels:\n                tfftp[lvl, 0, 0] = tfftp00\n                lvl += 1\n", "            if i in levels:\n                lvl += 1\n                tfftp[min(lvl, nlvls) - 1, 0, 0] = tfftp00 if lvl < 2 else tfftp[0, 0, 0]\n"),
+    ("c10_rank_only_flux", "C10", "solver.py", "        tfftp = tfftp[rank]\n        tfftq = tfftq[rank]\n", "        tfftq = tfftq[rank]\n"),
+    ("c10_analytic_mean_sorted", "C10", "solver.py", "        tfftp[:, 0, 0] = p000 - tfftq0[0, 0] * Kzinv * h\n", "        tfftp[:, 0, 0] = p000 - tfftq0[0, 0] * Kzinv * np.sort(h)\n"),
+    ("c10_store_after_step", "C10", "solver.py", "        if i in levels:\n            fftp[lvl, ...] = fftpi\n            fftq[lvl, ...] = fftqi\n            lvl += 1\n\n        Ti =", "        if i in levels and i > 0:\n            fftp[lvl, ...] = fftpi\n            fftq[lvl, ...] = fftqi\n            lvl += 1\n\n        Ti ="),
+]
